@@ -13,7 +13,7 @@ EXTENDS Ndp6Hunt, Json
 
 CONSTANTS Mode, TraceFile
 VARIABLES ln, skip
-tvars == <<hunt, loops, routers, raCount, closed, panicked, out, ev, refHunt, refClosed, refRouters, rl, pre, ln, skip>>
+tvars == <<hunt, loops, routers, raCount, closed, panicked, captured, out, ev, refHunt, refClosed, refRouters, rl, pre, ln, skip>>
 
 Trace == ndJsonDeserialize(TraceFile)
 HW == 1
@@ -52,7 +52,7 @@ Do(mm, rec, rr) ==
      THEN /\ mm /\ ev' = rec /\ out' = LFrames /\ PcsMatch
           /\ (HasState => ListOK /\ RoutersOK /\ hunt' = LHunt /\ routers' = LRouters)
      ELSE /\ ev' = rec /\ out' = LFrames
-          /\ UNCHANGED <<loops, raCount, closed, panicked>>
+          /\ UNCHANGED <<loops, raCount, closed, panicked, captured>>
           /\ hunt' = IF HasState /\ ListOK THEN LHunt
                      ELSE IF HasState THEN <<>>
                      ELSE hunt
@@ -66,7 +66,7 @@ RecordFailure == (~skip /\ Verdict # "none") => TLCSet(VI, Append(TLCGet(VI), <<
 \* reset: a new handler; the RA counter is a process global and keeps its value
 TReset == /\ ln <= Len(Trace) /\ E.a = "reset" /\ ln' = ln + 1 /\ skip' = FALSE /\ RecordFailure
           /\ hunt' = <<>> /\ loops' = <<>> /\ routers' = [r \in RouterIPs |-> NilMAC]
-          /\ closed' = FALSE /\ panicked' = FALSE /\ out' = <<>> /\ ev' = [kind |-> "init"]
+          /\ closed' = FALSE /\ panicked' = FALSE /\ captured' = {} /\ out' = <<>> /\ ev' = [kind |-> "init"]
           /\ refHunt' = {} /\ refClosed' = FALSE /\ refRouters' = {} /\ rl' = <<>> /\ pre' = NoPre
           /\ UNCHANGED raCount
 
@@ -93,19 +93,21 @@ TTimeout == /\ IsEvent("timeout") /\ LoopKnown
 TRa == /\ IsEvent("ra") /\ E.src \in RouterIPs /\ E.rmac \in RouterMACs
        /\ Do(RecvRAM(E.src, E.rmac, E.kind, TRUE),
              [kind |-> "ra", src |-> E.src, err |-> E.err, panic |-> "panic" \in DOMAIN E], IdleR)
+TCapture == /\ (IsEvent("capture") \/ IsEvent("release")) /\ E.mac \in Targets
+            /\ Do(CaptureM(E.mac, E.a = "capture"), [kind |-> "capture", mac |-> E.mac, on |-> E.a = "capture"], IdleR)
 TOther == /\ IsEvent("other")
           /\ Do(RecvOtherM(E.kind), [kind |-> "other", what |-> E.kind], IdleR)
 
 \* ---- real-time vocabulary
 NoteStep(cond) == /\ (Mode = "M" => cond) /\ ev' = Note /\ out' = <<>> /\ IdleR
-                  /\ UNCHANGED <<hunt, loops, routers, raCount, closed, panicked>> /\ ObserveRouters
+                  /\ UNCHANGED <<hunt, loops, routers, raCount, closed, panicked, captured>> /\ ObserveRouters
 TRtLoop == /\ IsEvent("rt.loop") /\ LoopKnown
            /\ NoteStep(loops[E.l].mac = E.mac /\ rl[E.l].mac = E.mac)
 \* a router entry was created or refreshed under the handler mutex (hook event); the RA counter is not tracked here
 TRtLearn == /\ IsEvent("rt.learn") /\ E.ip \in RouterIPs /\ E.mac \in RouterMACs
             /\ ev' = Note /\ out' = <<>> /\ IdleR
             /\ routers' = IF routers[E.ip] = NilMAC THEN [routers EXCEPT ![E.ip] = E.mac] ELSE routers
-            /\ UNCHANGED <<hunt, loops, raCount, closed, panicked>> /\ ObserveRouters
+            /\ UNCHANGED <<hunt, loops, raCount, closed, panicked, captured>> /\ ObserveRouters
 \* the timer expiry / RA wake-up that precedes a check is not logged
 TRtCheck == /\ IsEvent("rt.check") /\ LoopKnown
             /\ LET wake == [loops EXCEPT ![E.l].pc = "check", ![E.l].woken = FALSE] IN
@@ -117,8 +119,8 @@ TRtCheck == /\ IsEvent("rt.check") /\ LoopKnown
                          /\ loops' = IF ~inlist \/ closed THEN [wake EXCEPT ![E.l].pc = "done"]
                                      ELSE IF Learned # {} THEN [wake EXCEPT ![E.l].pc = "send", ![E.l].list = Learned]
                                      ELSE [wake EXCEPT ![E.l].pc = "sleep"]
-                    /\ out' = <<>> /\ UNCHANGED <<hunt, routers, raCount, closed, panicked>>
-               ELSE /\ ev' = CheckRec /\ out' = <<>> /\ UNCHANGED <<hunt, loops, routers, raCount, closed, panicked>>
+                    /\ out' = <<>> /\ UNCHANGED <<hunt, routers, raCount, closed, panicked, captured>>
+               ELSE /\ ev' = CheckRec /\ out' = <<>> /\ UNCHANGED <<hunt, loops, routers, raCount, closed, panicked, captured>>
             /\ LoopCheckR(E.l) /\ ObserveRouters
 \* one NA written by a loop in its send round; a round of n routers is n lines: the loop stays in
 \* "send" until its captured list is used up
@@ -131,7 +133,7 @@ TRtFrame == /\ IsEvent("rt.frame") /\ Len(E.frames) = 1 /\ E.l \in 1..Len(rl)
                                 THEN [loops EXCEPT ![E.l].pc = "sleep", ![E.l].list = {}]
                                 ELSE [loops EXCEPT ![E.l].list = @ \ {LFrames[1].tgt}]
                ELSE UNCHANGED loops
-            /\ UNCHANGED <<hunt, routers, raCount, closed, panicked>>
+            /\ UNCHANGED <<hunt, routers, raCount, closed, panicked, captured>>
             \* property level: every frame of the round is covered by the same check
             /\ pre' = [NoPre EXCEPT !.snap = rl[E.l].snap, !.snapClosed = ~rl[E.l].fresh \/ rl[E.l].snapClosed, !.mac = rl[E.l].mac]
             /\ UNCHANGED <<refHunt, refClosed, rl>> /\ ObserveRouters
@@ -144,7 +146,7 @@ TSkip == /\ ~Live /\ ln <= Len(Trace) /\ E.a # "reset" /\ ln' = ln + 1 /\ skip' 
          /\ RecordFailure
          /\ UNCHANGED vars
 
-TraceNext == \/ TSkip \/ TReset \/ TStart \/ TCStart \/ TStop \/ TClose \/ TCheck \/ TAct \/ TTimeout \/ TRa \/ TOther
+TraceNext == \/ TSkip \/ TReset \/ TStart \/ TCStart \/ TStop \/ TClose \/ TCheck \/ TAct \/ TTimeout \/ TRa \/ TOther \/ TCapture
              \/ TRtLoop \/ TRtLearn \/ TRtCheck \/ TRtFrame \/ TRtDone
 
 TraceSpec == TraceInit /\ [][TraceNext]_tvars
